@@ -26,6 +26,26 @@ CLAIMED = {
          "Decides clauses R07.1-R07.5: after every VM entry of the executor each failing path reverts to a snapshot taken before the entry (or returns the error to a caller that does); the snapshot of applyTransaction precedes execution and the fee-failure branch reverts; no call from VM-side code reaches a ledger writer that stores dirty state without a journal entry; the ledger's changer object is never replaced while accounts point to it; interchain deliveries are fed only from successful receipts; read-only execution clears after each transaction and reaches no persistence. Not EVM/wasm internals.",
          "go/ssa model + CHA restricted to module types; revert functions restore what they journal (C13); EVM and wasmtime trusted",
          "DESIGN.md section 5 C07"),
+ "C04": ("FSM table extraction from syntax compared with the protocol relation; SSA must-precede (record loaded before setFSM) and success-edge rules; shared timeout-list invariant",
+         "Decides clauses R04.1-R04.4: the fsm.Events literal of the transaction manager contains only transitions of the protocol relation stated in the property, none leaving SUCCESS/FAILURE/ROLLBACK, every fireable event has a status write-back; every tx-record write stores a freshly created record or a status produced by setFSM from the record loaded from storage, and only across setFSM's no-error edge; the executor's timeout write is applied only to ids of the timeout list of that height, and the list invariant (removal on every accepted receipt, readable encoding, coherent accumulators) holds. Not the reachability of edges over histories.",
+         "go/ast + go/types constant evaluation (protobuf names read from the generated _name table); looplab/fsm engine trusted",
+         "DESIGN.md section 5 C04"),
+ "C05": ("SSA success-edge and loop rules on the one-to-many bookkeeping; range-element vs fixed-index rule",
+         "Decides clauses R05.1-R05.3: the global state reaches the FSM only across isMultiTxFinished()==true, which is true only as count == ChildTxCount with every child compared; no code stores SUCCESS into a GlobalState directly; every failure branch flips every child unconditionally in its loop, sets the global state and (contracts) removes the group from the timeout list; a joining child is BEGIN only while the group is BEGIN; each rolled-back child is filed under a chain derived from its own id. Not the destinations' behaviour.",
+         "go/ssa model (range loops recognised by SSA block structure)",
+         "DESIGN.md section 5 C05"),
+ "C06": ("SSA dataflow/ordering rules on the executor's timeout bookkeeping",
+         "Decides clauses R06.1-R06.7: register/expire/rollback use the same block height and register at height+TimeoutHeight; registration lies behind the request/group/invalid/begin-failed/positive/overflow guards; every decoded receipt record reaches the removal update; all ledger writes of post-processing precede FlushDirtyData; expiry reads the list of its own height and no in-memory executor state; separators are emitted only after a non-empty list; accumulators extend the element they looked up. Numeric adequacy of the overflow guard is not decided.",
+         "go/ssa model; list encoding convention of getTimeoutList (first element empty = no list) read from the code",
+         "DESIGN.md section 5 C06"),
+ "C14": ("credit/debit pairing over SSA values (lifted through parameters to call sites), dominance of sufficiency comparisons, stale-read (alias) ordering rule",
+         "Decides clauses R14.1-R14.5: every balance credit of native execution credits an amount debited earlier on every path (same value or its quotient), parameters lifted to all call sites, with named exceptions (admin grant, genesis); every debit lies behind a balance>=amount comparison; when debit and credit accounts may alias the credit's balance read follows the debit; the fee share is fees/len(admins) credited per element of that list; the admin grant is paid only behind event==register and result==approve. Not sums over histories; EVM transfers excluded.",
+         "go/ssa model; math/big semantics trusted",
+         "DESIGN.md section 5 C14"),
+ "C16": ("SSA guard rules on the availability gates, FSM/pre-check table extraction (repository and pinned bitxhub-core), cascade must-pass-through, cache-coherence and stale-write-back rules",
+         "Decides clauses R16.1-R16.6: a local-source request is accepted only after checkSourceAvailability, a local destination only across exists/IsAvailable/CheckPermission, the target error becomes the begin-failed flag; in all governance FSM tables an approved logout ends in forbidden and nothing leads from forbidden to a usable status; an approved freeze/activate/logout of an appchain passes the matching cross-invoke with its result tested and the per-service operations run inside the loop; the service cache is fed only from successful receipts, reset on rollback, and every status-changing service entry posts the SERVICE event; no record loaded before a status change is written back after it. Not composed behaviour over histories.",
+         "go/ssa + go/ast; bitxhub-core tables are read from the pinned module source; looplab/fsm trusted",
+         "DESIGN.md section 5 C16"),
 }
 NOT_APPLICABLE = {}
 
